@@ -3301,3 +3301,73 @@ Q(name="e2_bbr_new_window_floor", props=["C12"], func=r"congestion/bbr/mod\.rs:\
   functions=["Bbr::new", "calculate_min_window"], pre=lambda c: "true", post=bn_post,
   bounds="every configured initial window and every initial MTU: a new Bbr controller is in Startup, not in recovery, and both cwnd (what window() reports then) and init_cwnd are at least two datagrams (in fact four: min_cwnd); the Kani base case covers NewReno and Cubic (Bbr::new trips an internal error of the Kani compiler)",
   replay=("bbr_new_window_native", lambda m: [dict(initial_window=0, mtu=1200), dict(initial_window=12000, mtu=9000)]))
+
+
+# ------------------------------------------------------------------ C08: while a connection is Closed, every packet from the peer makes it repeat its CONNECTION_CLOSE (slice)
+def hpr_post(c, p):
+    st = p.p.state
+    if p.p.outcome != "return":
+        return "true"
+    sd = c.ex.read_key(st, _conn(c, "state") + "#discr", I64).t
+    E = c.ex.enums["State"].index if "State" in c.ex.enums else c.ex.enums["connection::State"].index
+    closed = eq(sd, bv(E("Closed")))
+    ck = _conn(c, "close")
+    eqs = [x for x in p.called(r"SocketAddr as PartialEq>::eq$")]
+    written = ck in st.store
+    if not written:
+        # the flag that makes poll_transmit (re)send the close was not touched: only right when the connection is not in Closed
+        return not_(closed)
+    if not eqs:
+        return "false"
+    return eq(c.ex.read_key(st, ck, BOOL).t, c.ex.read_key(st, eqs[-1][2], BOOL).t)
+
+
+Q(name="e2_handle_packet_tail_repeats_close", props=["C08"], func=r"connection/mod\.rs:\d+:1: \d+:16>::handle_packet$",
+  src="connection/mod.rs", within=r"^    fn handle_packet\(", start_line=[r"if !was_closed && self\.state\.is_closed\(\)", r"(?#before)^            self\.close_common\(\);"],
+  inline=[r"State::is_closed$", r"State::is_drained$"], allowed_panics=r".",
+  modifies=lambda c: {r"Connection::close_common$": ["*_1.%d" % c.field("connection/mod.rs", "Connection", "timers")], r"Connection::set_close_timer$": ["*_1.%d" % c.field("connection/mod.rs", "Connection", "timers")]},
+  functions=["Connection::handle_packet (slice: from `if !was_closed && self.state.is_closed()` to the end)"], pre=lambda c: "true", post=hpr_post,
+  bounds="the closing lines of handle_packet from an ARBITRARY state: whenever the connection is in state Closed when the function returns - whether this packet closed it or it was closed before - the flag that makes poll_transmit send CONNECTION_CLOSE is set to `this packet came from the current path's address`; so a peer that missed the first close and keeps sending is told again instead of being left to time out or to be reset",
+  replay=("conn_close_repeated_native", lambda m: [dict(x=0)]))
+
+
+# ------------------------------------------------------------------ C12: abandoning a packet space takes every one of its packets out of flight (one loop iteration)
+def dsp_post(c, p):
+    st = p.p.state
+    if p.p.outcome != "stop" or "loop back-edge" not in str(p.p.detail):
+        return "true"
+    nx = p.called(r"as Iterator>::next$")
+    rif = p.called(r"Connection::remove_in_flight$")
+    if len(nx) != 1 or len(rif) != 1 or rif[0][1][1][0] != "ref":
+        return "false"
+    return "true" if c.ex.origin(st, _k(rif[0][1][1][1])) == nx[0][2] + "@Some.0" else "false"
+
+
+Q(name="e2_discard_space_iteration", props=["C12"], func=r"connection/mod\.rs:\d+:1: \d+:16>::discard_space$",
+  allowed_panics=r".", check_stop=True, loop_is_stop=True, ignore_untranslatable=r".",
+  functions=["Connection::discard_space (one iteration of its loop over the abandoned packets)"], pre=lambda c: "true", post=dsp_post,
+  bounds="every state: each packet the iterator over the abandoned space's sent packets yields - ack-eliciting or not (padded ACK-only packets count as in flight too) - is handed to remove_in_flight before the next one is looked at",
+  replay=("conn_discard_space_native", lambda m: [dict(x=0)]))
+
+
+# ------------------------------------------------------------------ C05: Streams::open hands out a stream only below the peer's stream-count limit
+def so_post(c, p):
+    st = p.p.state
+    if p.p.outcome != "return":
+        return "true"
+    some = eq(c.ex.read_key(st, "_0#discr", I64).t, bv(1))
+    S = "**_1.%d" % c.field("connection/streams/mod.rs", "Streams", "state")
+    nxt, mx = S + ".%d" % _ss(c, "next"), S + ".%d" % _ss(c, "max")
+    dirv = c.inp("_2#discr", I64)
+    conj = []
+    for d in (0, 1):
+        n0, m0 = c.inp("%s[%d]" % (nxt, d), BV64), c.inp("%s[%d]" % (mx, d), BV64)
+        conj.append(or_(not_(eq(dirv, bv(d))), not_(some), "(bvult %s %s)" % (n0, m0)))
+    return and_(*conj)
+
+
+Q(name="e2_streams_open_limit", props=["C05"], func=r"streams/mod\.rs:\d+:1: \d+:21>::open$",
+  allowed_panics=r"attempt to compute", ignore_untranslatable=r".",
+  functions=["Streams::open"], pre=lambda c: ule(c.inp("_2#discr", I64), bv(1)), post=so_post,
+  bounds="every stream-count state, both directions: a stream id is handed out only while the number of streams opened so far in that direction is strictly below the peer's limit - in particular never with a limit of 0",
+  replay=("streams_open_limit_native", lambda m: [dict(limit=0), dict(limit=1), dict(limit=3)]))
